@@ -1,5 +1,5 @@
 import StepupModel.K.Request
-import StepupModel.Lemmas.MetaAfter
+import StepupModel.Lemmas.MetaAfterW
 /-! Driver requests of the kernel model (`k <op> ...`); the only stateful part of the driver. -/
 open StepupModel StepupModel.Proto StepupModel.K
 
@@ -125,8 +125,10 @@ def handle (sess : Session) : List String → Option (Session × String)
     pure ({ sess with cfg := { sess.cfg with targets := ← unhexList targets, targetDirs := ← unhexList dirs } },
       s!"ok - {sess.st.digest}")
   | ["cacheinv"] =>
-    -- the hypothesis of the worklist theorems (`MetaAfter.CacheInvAfter`), evaluated on the model state
-    pure (sess, if StepupModel.K.MetaAfter.cacheInvAfterB sess.st sess.cfg then "1" else "0")
+    -- the hypothesis of the worklist theorems (`MetaAfter.CacheInvAfterW`, the flag discipline),
+    -- evaluated on the model state; second digit: the strict form `CacheInvAfter`
+    pure (sess, (if StepupModel.K.MetaAfter.cacheInvAfterWB sess.st sess.cfg then "1" else "0") ++
+                (if StepupModel.K.MetaAfter.cacheInvAfterB sess.st sess.cfg then "1" else "0"))
   | ["dump"] => pure (sess, "|".intercalate sess.st.dumpLines)
   | ["lasterr"] => pure (sess, sess.lastErr)
   | toks => do
